@@ -168,6 +168,8 @@ def render(e):
         if isinstance(v, int):
             return str(v)
         return json.dumps(v, ensure_ascii=False)
+    if k == "with":
+        return "with(" + render(e[1]) + "; " + render(e[2]) + ")"
     if k == "getkey":
         assert e[1].isalpha(), "getkey is for identifier-like keys; use the index form for %r" % (e[1],)
         return "." + e[1]
